@@ -7,7 +7,7 @@ MANIFEST = dict(
     engine="nsim+e2e", category="exploration",
     technique="runtime monitoring: exhaustive enumeration of command completion orders (stateless re-execution) on small graphs; "
               "START-time monitors over the reconstructed disk",
-    text="For small generated graphs (2-6 statements; first builds and incremental builds after change sets) nsim enumerates EVERY "
+    text="(Round 10: ordering groups - phony statements over generated headers, nested 1-3 deep, inputs of any kind - with consumers that name only the top group.) For small generated graphs (2-6 statements; first builds and incremental builds after change sets) nsim enumerates EVERY "
          "completion order for the chosen -j/pools (capped per graph, cap reported), larger graphs are PRNG-sampled. At every START "
          "the monitor reconstructs the virtual disk from the event log and demands: every file the statement needs - explicit, "
          "implicit, order-only, through phony aliases, and recorded discovered dependencies - exists with exactly the content a clean "
